@@ -78,6 +78,24 @@ fn tamper_all<T: ChallengeInput + Serialize + DeserializeOwned>(o: &mut Outcome,
     }
 }
 
+/// Swap the bytes of two same-shaped sub-structures (all atoms whose path starts with the prefix).
+fn swap_substructures(t: &Trace, pa: &str, pb: &str) -> Option<Vec<u8>> {
+    let span = |p: &str| -> Option<(usize, usize)> {
+        let idx: Vec<usize> = (0..t.atoms.len()).filter(|&i| t.atoms[i].path.starts_with(p) && (t.atoms[i].path.len() == p.len() || [b'.', b'['].contains(&t.atoms[i].path.as_bytes()[p.len()]))).collect();
+        let (f, l) = (*idx.first()?, *idx.last()?);
+        Some((t.atoms[f].off, t.atoms[l].off + t.atoms[l].len))
+    };
+    let (a0, a1) = span(pa)?;
+    let (b0, b1) = span(pb)?;
+    if a1 - a0 != b1 - b0 {
+        return None;
+    }
+    let mut out = t.bytes.clone();
+    out[a0..a1].copy_from_slice(&t.bytes[b0..b1]);
+    out[b0..b1].copy_from_slice(&t.bytes[a0..a1]);
+    Some(out)
+}
+
 fn strip_idx(p: &str) -> String {
     let mut out = String::new();
     let mut in_br = false;
@@ -171,6 +189,63 @@ fn lib_elements(o: &mut Outcome, seed: u64) {
     if challenge_of(&a, b"") == challenge_of(&(-a), b"") {
         o.violate("challenge-ignores-element", "Scalar(sign)", "a scalar and its negation give the same challenge".into());
     }
+    // adjacent inputs must not be able to trade bytes across their boundary: (a, b) and a pair
+    // whose concatenated *shortest-form* encodings coincide must give different challenges
+    for _ in 0..4 {
+        let p31 = s.bytes(31);
+        let mut q32 = s.bytes(32);
+        q32[0] &= 0x3f;
+        q32[31] &= 0x3f;
+        if q32[0] == 0 {
+            q32[0] = 1;
+        }
+        // big-endian view: a = 00|P, b = Q  vs  a' = P|Q[0], b' = 00|Q[1..]
+        let be = |x: &[u8]| -> Option<Scalar> {
+            let mut le: Vec<u8> = x.to_vec();
+            le.reverse();
+            refc::sc_opt(&le)
+        };
+        let mut a = vec![0u8];
+        a.extend_from_slice(&p31);
+        let mut a2 = p31.clone();
+        a2.push(q32[0]);
+        let mut b2 = vec![0u8];
+        b2.extend_from_slice(&q32[1..]);
+        a2[0] &= 0x3f;
+        a[1] &= 0x3f;
+        let a2_fixed = {
+            let mut x = a[1..].to_vec();
+            x.push(q32[0]);
+            x
+        };
+        if let (Some(sa), Some(sb), Some(sa2), Some(sb2)) = (be(&a), be(&q32), be(&a2_fixed), be(&b2)) {
+            o.bump("fault.tamper.boundary-shift");
+            o.events += 1;
+            let c1 = ChallengeBuilder::new().with(&sa).with(&sb).finish().to_scalar();
+            let c2 = ChallengeBuilder::new().with(&sa2).with(&sb2).finish().to_scalar();
+            if (sa, sb) != (sa2, sb2) && c1 == c2 {
+                o.violate("challenge-ignores-element-boundary", "Scalar,Scalar(big-endian shift)", "two adjacent scalars can trade a byte across their boundary without changing the challenge".into());
+            }
+        }
+        // little-endian view: a = P|00, b = Q  vs  a' = P[1..]... (trailing zero of a moved to b)
+        let le = |x: &[u8]| -> Option<Scalar> { refc::sc_opt(x) };
+        let mut la = p31.clone();
+        la.push(0);
+        let mut la2 = vec![];
+        la2.extend_from_slice(&p31);
+        la2.push(q32[0] & 0x3f);
+        let mut lb2 = q32[1..].to_vec();
+        lb2.push(0);
+        if let (Some(sa), Some(sb), Some(sa2), Some(sb2)) = (le(&la), le(&q32), le(&la2), le(&lb2)) {
+            o.bump("fault.tamper.boundary-shift");
+            o.events += 1;
+            let c1 = ChallengeBuilder::new().with(&sa).with(&sb).finish().to_scalar();
+            let c2 = ChallengeBuilder::new().with(&sa2).with(&sb2).finish().to_scalar();
+            if (sa, sb) != (sa2, sb2) && c1 == c2 {
+                o.violate("challenge-ignores-element-boundary", "Scalar,Scalar(little-endian shift)", "two adjacent scalars can trade a byte across their boundary without changing the challenge".into());
+            }
+        }
+    }
     o.bump("fault.tamper.first-move-atom");
     // zkAbacus contexts of every length class: one input byte changed anywhere, or the length
     for len in [0usize, 1, 31, 32, 33, 64, 255, 256, 257, 300, 1000, 4096] {
@@ -235,6 +310,25 @@ fn lib_range(o: &mut Outcome, seed: u64) {
         o.bump("probe.builder_proof_challenges_equal");
     }
     tamper_all(o, "RangeConstraint", &rc, Some(36), seed);
+    // whole digit proofs swapped (a permutation of same-shaped sub-structures)
+    {
+        let t = atoms::trace(&rc);
+        let base = challenge_of(&rc, b"ctx");
+        for (i, j) in [(0usize, 1usize), (3, 8), (2, 7)] {
+            if let Some(b) = swap_substructures(&t, &format!("digit_proofs[{}]", i), &format!("digit_proofs[{}]", j)) {
+                o.bump("fault.tamper.permutation");
+                o.events += 1;
+                if b == t.bytes {
+                    continue;
+                }
+                if let Ok(rc2) = bincode::deserialize::<RangeConstraint>(&b) {
+                    if challenge_of(&rc2, b"ctx") == base {
+                        o.violate("challenge-ignores-order", "RangeConstraint:digit_proofs", format!("swapping digit proofs {} and {} leaves the challenge unchanged", i, j));
+                    }
+                }
+            }
+        }
+    }
     // range parameters: a share of the 258 atoms per case (all over a batch)
     let t = atoms::trace(rp);
     let base = challenge_of(rp, b"ctx");
@@ -292,6 +386,73 @@ fn abacus_establish(o: &mut Outcome, seed: u64) {
                 }
             }
             None => crate::harness_error("C12: tampered establish proof did not reach the challenge"),
+        }
+    }
+    // whole sub-proofs swapped
+    if let Some(b) = swap_substructures(&t, "state_proof", "close_state_proof") {
+        let r = forge::present_establish(m, &ag, &b, "c12/est/swapped", seed);
+        o.bump("fault.tamper.permutation");
+        o.events += 1;
+        if b != t.bytes && r.challenge == Some(c0) {
+            o.violate("merchant-challenge-ignores-order", "EstablishProof:state_proof<->close_state_proof", "swapping the two sub-proofs of an establish proof leaves the merchant's challenge unchanged".into());
+        }
+    }
+    // two adjacent revealed scalars trading a byte across their boundary
+    {
+        let (pa, pb) = ("channel_id_commitment_scalar", "close_tag_commitment_scalar");
+        for big_endian in [true, false] {
+            let p31 = s.bytes(31);
+            let mut q = s.bytes(32);
+            q[0] &= 0x3f;
+            q[31] &= 0x3f;
+            let mk = |a: Vec<u8>, b: Vec<u8>| -> Option<(Vec<u8>, Vec<u8>)> {
+                let (mut a, mut b) = (a, b);
+                if big_endian {
+                    a.reverse();
+                    b.reverse();
+                }
+                match (refc::sc_opt(&a), refc::sc_opt(&b)) {
+                    (Some(_), Some(_)) => Some((a, b)),
+                    _ => None,
+                }
+            };
+            // shortest forms concatenate identically in the chosen endianness
+            let (v1, v2) = if big_endian {
+                let mut a = vec![0u8];
+                a.extend_from_slice(&p31);
+                a[1] &= 0x3f;
+                let mut a2 = a[1..].to_vec();
+                a2.push(q[0]);
+                let mut b2 = vec![0u8];
+                b2.extend_from_slice(&q[1..]);
+                (mk(a, q.clone()), mk(a2, b2))
+            } else {
+                let mut a = p31.clone();
+                a.push(0);
+                let mut a2 = p31.clone();
+                a2.push(q[0]);
+                let mut b2 = q[1..].to_vec();
+                b2.push(0);
+                (mk(a, q.clone()), mk(a2, b2))
+            };
+            if let (Some((a, b)), Some((a2, b2))) = (v1, v2) {
+                let mut t1 = t.clone();
+                t1.set(pa, &a);
+                t1.set(pb, &b);
+                let mut t2 = t.clone();
+                t2.set(pa, &a2);
+                t2.set(pb, &b2);
+                if t1.bytes == t2.bytes {
+                    continue;
+                }
+                let r1 = forge::present_establish(m, &ag, &t1.bytes, "c12/est/shift1", seed);
+                let r2 = forge::present_establish(m, &ag, &t2.bytes, "c12/est/shift2", seed);
+                o.bump("fault.tamper.boundary-shift");
+                o.events += 2;
+                if r1.challenge.is_some() && r1.challenge == r2.challenge {
+                    o.violate("merchant-challenge-ignores-element-boundary", "EstablishProof:revealed-scalars", "two adjacent revealed commitment scalars can trade a byte across their boundary without changing the merchant's challenge".into());
+                }
+            }
         }
     }
     // verifier-side inputs: agreed values and context
@@ -357,6 +518,24 @@ fn abacus_pay(o: &mut Outcome, seed: u64, share: usize) {
                 }
             }
             None => crate::harness_error("C12: tampered pay proof did not reach the challenge"),
+        }
+    }
+    for (pa, pb) in [
+        ("customer_balance_proof", "merchant_balance_proof"),
+        ("customer_balance_proof.digit_proofs[0]", "customer_balance_proof.digit_proofs[1]"),
+        ("merchant_balance_proof.digit_proofs[2]", "merchant_balance_proof.digit_proofs[7]"),
+        ("state_proof", "close_state_proof"),
+    ] {
+        if let Some(b) = swap_substructures(t, pa, pb) {
+            if b == t.bytes {
+                continue;
+            }
+            let r = present(m, hs.amount, &hs.nonce, &hs.ctx, &b);
+            o.bump("fault.tamper.permutation");
+            o.events += 1;
+            if r.challenge == Some(c0) {
+                o.violate("merchant-challenge-ignores-order", &format!("PayProof:{}<->{}", strip_idx(pa), strip_idx(pb)), format!("swapping {} and {} of a pay proof leaves the merchant's challenge unchanged", pa, pb));
+            }
         }
     }
     // verifier-side inputs: nonce, context, key, range parameters (amount is not hashed by design:
@@ -444,7 +623,7 @@ impl Prop for C12 {
         o
     }
     fn rule(&self) -> String {
-        "one case = one honest proof (commitment / signature / signature-request proof for N in {1,2,3,5,8,13} in G1 and G2; range constraint; establish proof; pay proof) or ChallengeInput value (public key, Pedersen parameters, range parameters, commitment, signature, blinded message / signature, scalar, group elements, context bytes) travelling to its verifier, with EVERY non-response atom of its wire form (enumerated by the atom tracer; counts 2/4/2/36/8/84 asserted) replaced in turn by another valid element after the prover fixed the challenge; the verifier-side challenge (public ChallengeBuilder at library level, challenge-recorder hook inside initialize / allow_payment at zkAbacus level) must differ from the untampered one. Also each verifier-side input (key, agreed values, nonce, context byte, range parameters) replaced. Distinct = distinct case; every case injects faults".into()
+        "one case = one honest proof (commitment / signature / signature-request proof for N in {1,2,3,5,8,13} in G1 and G2; range constraint; establish proof; pay proof) or ChallengeInput value (public key, Pedersen parameters, range parameters, commitment, signature, blinded message / signature, scalar, group elements, context bytes) travelling to its verifier, with EVERY non-response atom of its wire form (enumerated by the atom tracer; counts 2/4/2/36/8/84 asserted) replaced in turn by another valid element after the prover fixed the challenge; the verifier-side challenge (public ChallengeBuilder at library level, challenge-recorder hook inside initialize / allow_payment at zkAbacus level) must differ from the untampered one. Also each verifier-side input (key, agreed values, nonce, context byte, range parameters) replaced; same-shaped sub-structures swapped wholesale (digit proofs, the two range constraints, the state / close-state sub-proofs); and adjacent scalars trading a byte across their boundary (both endiannesses). Distinct = distinct case; every case injects faults".into()
     }
     fn assumptions(&self) -> Vec<String> {
         vec![
@@ -454,6 +633,6 @@ impl Prop for C12 {
         ]
     }
     fn required_probes(&self, _tier: Tier) -> Vec<&'static str> {
-        vec!["fault.tamper.first-move-atom", "fault.tamper.context-byte", "fault.tamper.verifier-input", "probe.builder_proof_challenges_equal"]
+        vec!["fault.tamper.first-move-atom", "fault.tamper.context-byte", "fault.tamper.verifier-input", "fault.tamper.permutation", "fault.tamper.boundary-shift", "probe.builder_proof_challenges_equal"]
     }
 }
